@@ -44,8 +44,12 @@ func StartUci() *UciSession {
 	if s.outR, s.outW, err = os.Pipe(); err != nil {
 		panic(err)
 	}
+	// the handler creates its input scanner on os.Stdin: give it our pipe as stdin so that the
+	// engine's own scanner configuration (buffer sizes) is the one under test
+	oldStdin := os.Stdin
+	os.Stdin = s.inR
 	s.H = uci.NewUciHandler()
-	s.H.InIo = bufio.NewScanner(s.inR)
+	os.Stdin = oldStdin
 	s.H.OutIo = bufio.NewWriter(s.outW)
 	go func() {
 		defer close(s.readDone)
